@@ -35,6 +35,8 @@ class ClassHooks(Hooks):
                 return eng.call(attr, {"self": obj})
             if attr in self.funcs:
                 return ("bound", obj, attr)
+            if self._resolve(eng, attr, True):
+                return self.get_attr(eng, obj, attr)
             raise Unsupported(f"attribute {attr} of {obj.cls}")
         if isinstance(obj, Opaque):
             if attr in obj.attrs:
@@ -62,6 +64,8 @@ class ClassHooks(Hooks):
                 return eng.call(meth, a)
             if meth == "__class__":
                 return self.construct(eng, obj, args, kw)
+            if self._resolve(eng, meth, True):
+                return self.call_method(eng, obj, meth, args, kw, env)
             raise Unsupported(f"method {meth} of {obj.cls}")
         if isinstance(obj, Opaque):
             if meth == "__len__" and "length" in obj.attrs:
@@ -75,7 +79,24 @@ class ClassHooks(Hooks):
             return self.modular[name](eng, None, args, kw)
         if name in self.funcs:
             return eng.call(name, eng.call_positional(name, args, kw))
+        if self._resolve(eng, name, False):
+            return eng.call(name, eng.call_positional(name, args, kw))
         raise Unsupported(f"call {name}")
+
+    def _resolve(self, eng, name, method):
+        """a helper the contract does not name (extracted by a refactor): take its *real* body from the source,
+        next to the functions under contract; it is then executed inline like any other callee without contract"""
+        from . import extract
+        if name.startswith("__") and name.endswith("__"):
+            return False
+        node = extract.sibling(list(self.funcs.values()), name, method)
+        if node is None:
+            return False
+        self.funcs[name] = node
+        eng.funcs[name] = node
+        if extract.is_property(node):
+            self.props.add(name)
+        return True
 
     def call_value(self, eng, fn, args, kw, env):
         if isinstance(fn, tuple) and fn:
@@ -102,6 +123,8 @@ class ClassHooks(Hooks):
         if name in self.globals:
             return self.globals[name]
         if name in self.funcs or name in self.modular:
+            return ("func", name)
+        if self._resolve(eng, name, False):
             return ("func", name)
         raise Unsupported(f"global {name}")
 
